@@ -348,6 +348,19 @@ pub fn c09(tier: &str, seed: u64) {
       stat("oracle.group_shares.valid_adss_sets_of_other_sizes");
     }
   }
+  // lines of DIFFERENT lengths after a well-formed first line: a share with bytes after its MAC, a run
+  // of 'A's, 260+ characters of anything, and a short well-formed share (empty C and D) in front
+  {
+    let mut longer = c.msg.share.to_bytes();
+    longer.extend([0u8; 6]);
+    let short_first = adss::Commune::new(2, vec![], vec![], None).share().expect("share").to_bytes();
+    for later in [BASE64_STANDARD.encode(&longer), "A".repeat(260), "A".repeat(256), "!".repeat(300), BASE64_STANDARD.encode(vec![0xffu8; 400])] {
+      junk.push(format!("{}\n{}", good, later));
+      junk.push(format!("{}\n{}\n{}", good, good, later));
+    }
+    junk.push(format!("{}\n{}\n{}", BASE64_STANDARD.encode(&short_first), good, good));
+    stat("oracle.group_shares.lines_of_different_lengths");
+  }
   for s in junk {
     let s2 = s.clone();
     no_panic("star_wasm::group_shares", &[("serialized_shares", s.clone())], move || {
